@@ -899,6 +899,86 @@ func EpOnlyMove(rng *rand.Rand) string {
 	}
 }
 
+// EpBattery: a capturable double push with heavy pieces stacked behind the pushed pawn on its file, along the
+// rank the pawn lands on, and further attackers of the en-passant square (diagonals, knights): the exchange on
+// the en-passant square then depends on lines that only open when BOTH pawns leave their squares.
+func EpBattery(rng *rand.Rand) (string, int, int) {
+	for {
+		bd := make([]int, 64)
+		c := rng.Intn(2)
+		f := rng.Intn(8)
+		homeR, toR, dir := 1, 3, 1
+		if c == 1 {
+			homeR, toR, dir = 6, 4, -1
+		}
+		from, mid, to := homeR*8+f, (homeR+dir)*8+f, toR*8+f
+		bd[from] = 8*c + 1
+		ncap := 0
+		for _, nf := range []int{f - 1, f + 1} {
+			if nf >= 0 && nf < 8 && rng.Intn(4) != 0 {
+				bd[toR*8+nf] = 8*(1-c) + 1
+				ncap++
+			}
+		}
+		if ncap == 0 {
+			continue
+		}
+		put := func(sq, pc int) {
+			if sq >= 0 && sq < 64 && bd[sq] == 0 && sq != mid && sq != to {
+				if pc%8 == 1 && (sq/8 == 0 || sq/8 == 7) {
+					return
+				}
+				bd[sq] = pc
+			}
+		}
+		heavy := func() int { return 8*rng.Intn(2) + []int{4, 4, 5}[rng.Intn(3)] }
+		// stacked on the file, on both sides of the pawn's path
+		for r := 0; r < 8; r++ {
+			if rng.Intn(3) == 0 {
+				put(r*8+f, heavy())
+			}
+		}
+		// along the rank the pawn lands on
+		for g := 0; g < 8; g++ {
+			if rng.Intn(4) == 0 {
+				put(toR*8+g, heavy())
+			}
+		}
+		// diagonal and knight attackers of the en-passant square
+		for d := 4; d < 8; d++ {
+			cf, cr := mid%8+df[d], mid/8+dr[d]
+			for onBoard(cf, cr) {
+				if rng.Intn(5) == 0 {
+					put(cr*8+cf, 8*rng.Intn(2)+[]int{3, 5}[rng.Intn(2)])
+				}
+				cf, cr = cf+df[d], cr+dr[d]
+			}
+		}
+		for _, kn := range [][2]int{{1, 2}, {2, 1}, {-1, 2}, {-2, 1}, {1, -2}, {2, -1}, {-1, -2}, {-2, -1}} {
+			if onBoard(mid%8+kn[0], mid/8+kn[1]) && rng.Intn(5) == 0 {
+				put((mid/8+kn[1])*8+mid%8+kn[0], 8*rng.Intn(2)+2)
+			}
+		}
+		for _, kc := range []int{6, 14} {
+			for try := 0; try < 40; try++ {
+				sq := rng.Intn(64)
+				if bd[sq] == 0 && sq != mid && sq != to {
+					bd[sq] = kc
+					break
+				}
+			}
+		}
+		wk, bk := kingSq(bd, 0), kingSq(bd, 1)
+		if wk < 0 || bk < 0 || (abs(wk%8-bk%8) <= 1 && abs(wk/8-bk/8) <= 1) || !countsOK(bd) {
+			continue
+		}
+		if Attacked(bd, kingSq(bd, 1-c), c) {
+			continue
+		}
+		return FEN(bd, c, 0, -1, 0, 1+rng.Intn(50)), from, to
+	}
+}
+
 func abs(x int) int {
 	if x < 0 {
 		return -x
